@@ -19,7 +19,7 @@ import (
 // filterType draws a type for filter and range tests: 1..maxAttrs attributes
 // over all kinds plus optionally a to-one and a to-many relationship.
 func filterType(t *rapid.T, maxAttrs int, withRels bool) gen.TypeSpec {
-	ts := gen.TypeSpec{Name: "t"}
+	ts := gen.TypeSpec{Name: "t", IDPos: rapid.IntRange(0, 3).Draw(t, "idpos")}
 	n := rapid.IntRange(1, maxAttrs).Draw(t, "nattrs")
 
 	for i := 0; i < n; i++ {
@@ -101,6 +101,31 @@ func TestC10Tree(t *testing.T) {
 
 		if s != want || w != want {
 			t.Fatalf("C10 violated: verdict soft=%v wrapped=%v, the filter read as logic gives %v\ntype: %s\nvalues: %s\nfilter: %s", s, w, want, ts, gen.ShowVals(vals), tree)
+		}
+
+		// One sub-filter object may sit at several places of a bigger filter
+		// (a variable used twice): g and g, g or g, (g and A) or (g and B)
+		// with A and B equal to g all read as g.
+		{
+			g := tree.Build()
+			shared := []*jsonapi.Filter{
+				{Op: "and", Val: []*jsonapi.Filter{g, g}},
+				{Op: "or", Val: []*jsonapi.Filter{g, g}},
+				{Op: "or", Val: []*jsonapi.Filter{{Op: "and", Val: []*jsonapi.Filter{g, tree.Build()}}, {Op: "and", Val: []*jsonapi.Filter{g, tree.Build()}}}},
+				{Op: "and", Val: []*jsonapi.Filter{{Op: "or", Val: []*jsonapi.Filter{g}}, {Op: "or", Val: []*jsonapi.Filter{g, g}}, g}},
+			}
+
+			for i, f := range shared {
+				var vs, vw bool
+
+				if p := oracle.Try(func() { vs, vw = f.IsAllowed(soft), f.IsAllowed(wrapped) }); p != nil {
+					t.Fatalf("C10 violated: IsAllowed (shared sub-filter, form %d) %s\nfilter: %s", i, p, tree)
+				}
+
+				if vs != want || vw != want {
+					t.Fatalf("C10 violated: a filter that uses the sub-filter g at several places (form %d) gives soft=%v wrapped=%v, g alone gives %v\ntype: %s\nvalues: %s\ng: %s", i, vs, vw, want, ts, gen.ShowVals(vals), tree)
+				}
+			}
 		}
 
 		// One filter object used again after its values were edited (a list
